@@ -19,7 +19,7 @@ N_LONG = {'quick': 240, 'thorough': 20000}       # scale regime: 900-1600 timest
 BOX = {'quick': dict(starts=range(-3, 4), ends=range(-2, 7), freqs=range(1, 5), T=22),
        'thorough': dict(starts=range(-6, 7), ends=range(-3, 17), freqs=range(1, 8), T=40)}
 RULE = ('cases: (a) seeded scripts: 1-8 systems with start in [-6,12], frequency in [1,7], end in {default, start-3..start+15} '
-        '(so end<start occurs), registered/removed at chunk boundaries during timesteps 0..~60 (identifiers also as str-subclass instances, window numbers also as numpy integers, falsy system objects, models with a quiet user logger), advanced by a random mix of '
+        '(so end<start occurs), registered/removed at chunk boundaries during timesteps 0..~60, some advance requests cut short by a system that raises - exception or KeyboardInterrupt-like - with the caller carrying on (identifiers also as str-subclass instances, window numbers also as numpy integers, falsy system objects, models with a quiet user logger), advanced by a random mix of '
         'execute(), execute(n<=6) and systems.execute_systems(), each replayed one step at a time on a twin model, with '
         'invalid-n probes at random states; (b) clock-warp scripts crossing sys.maxsize; (c) every (start,end,frequency) of '
         'a box with one system over timesteps 0..T (exhaustive); (e) long runs: 900-1600 timesteps, frequencies up to 200, ends on and around 256/512/768/1024, execute(n) with n up to the whole run, long stretches without registry changes; (f) self-retirement scripts: systems that remove themselves with clean_up() from inside execute(), their identifier taken over later by a new object with another window; (d) spawner scripts: a highest-priority system registers/removes '
@@ -29,7 +29,7 @@ RULE = ('cases: (a) seeded scripts: 1-8 systems with start in [-6,12], frequency
 ASSUMPTIONS = ['systems only log (timestep, id) in execute()', 'clock-warp cases assign SystemManager.timestep (documented attribute)',
                'bool / numpy integer n may be either rejected or treated as that many steps (the property only requires '
                'rejecting non-integers and n<1)']
-FLOORS = {'quick': {'ids_taken_over_after_self_retirement': 491, 'retire_cases': 133, 'falsy_system_objects': 715, 'decisions_ran': 5000, 'decisions_not_ran': 5000, 'multi_step_calls': 1000, 'rejected_n_value': 300,
+FLOORS = {'quick': {'advance_requests_cut_short_by_a_failing_system': 468, 'ids_taken_over_after_self_retirement': 491, 'retire_cases': 133, 'falsy_system_objects': 715, 'decisions_ran': 5000, 'decisions_not_ran': 5000, 'multi_step_calls': 1000, 'rejected_n_value': 300,
                     'rejected_n_type': 300, 'windows_negative_start': 300, 'windows_end_before_start': 100,
                     'late_registrations': 300, 'warp_cases': 20, 'box_windows': 140, 'collector_windows': 500, 'long_runs': 120, 'long_run_timesteps': 100000, 'spawn_cases': 200,
                     'mid_step_registry_changes': 1000,
@@ -52,6 +52,10 @@ def _fixtures():
             if self.model.timestep != t:          # the model-level clock must equal the scheduler's also while a timestep runs
                 self.log.append(('model.timestep != systems.timestep inside a step', self.model.timestep, t))
             self.log.append((t, self.id))
+            fault = FAULT_PLAN.pop((id(self.log), self.id, t), None)         # a one-shot failure scheduled by the driver
+            if fault is not None:
+                from vlib import faults
+                raise faults.make(fault, f'{self.id} fails at {t}')
 
     import ECAgent.Collectors as collectors
 
@@ -63,8 +67,7 @@ def _fixtures():
             self.log = log
 
         def collect(self):
-            t = self.model.systems.timestep
-            self.log.append((t, self.id))
+            WinSystem.execute(self)
 
     WinSystem.Collector = WinCollector
     # falsy-but-valid user systems: container-like (len = pending jobs = 0) and switch-like (bool False)
@@ -72,6 +75,9 @@ def _fixtures():
                           type('WinSystemOff', (WinSystem,), {'__bool__': lambda self: False})]
     WinCollector.variants = [WinCollector, type('WinCollectorSized', (WinCollector,), {'__len__': lambda self: len(self.records)})]
     return core, WinSystem
+
+
+FAULT_PLAN = {}
 
 
 def should_run(w, t):
@@ -163,6 +169,38 @@ def case_script(ctx, case):
                 ctx.count('removals')
         if rng.random() < 0.15:
             probe_invalid_n(ctx, rng, model, log, t)
+        due_now = [w for w in registered if any(should_run(w, t + dt) for dt in range(3))]
+        if due_now and rng.random() < 0.08:
+            # an advance request cut short by a system that raises (ordinary exception or KeyboardInterrupt-like); the caller catches it and
+            # goes on with the same model.  The failed request is judged loosely (nothing off its window, nothing twice); every timestep
+            # AFTER it is judged as strictly as ever.
+            from vlib import faults
+            w = rng.choice(due_now)
+            tf = next(t + dt for dt in range(3) if should_run(w, t + dt))
+            cls = faults.pick(rng)
+            n = rng.randint(tf - t + 1, tf - t + 3)
+            FAULT_PLAN[(id(log), w['id'], tf)] = cls
+            FAULT_PLAN[(id(tlog), w['id'], tf)] = cls
+            mark, tmark0 = len(log), len(tlog)
+            _, err = faults.attempt(model.execute, n) if n > 1 else faults.attempt(model.execute)
+            for _ in range(n):
+                _, terr = faults.attempt(twin.execute)
+                if terr is not None:
+                    break
+            FAULT_PLAN.clear()
+            ctx.count('advance_requests_cut_short_by_a_failing_system')
+            ctx.count('failing_system_interrupt' if cls is faults.Interrupt else 'failing_system_exception')
+            got = Counter(log[mark:])
+            ok = all(c == 1 for c in got.values()) and all(isinstance(e[0], int) and any(wx['id'] == e[1] and should_run(wx, e[0]) for wx in registered) for e in got)
+            if not ok:
+                raise CaseViolation(f'execute({n}) at t={t}, cut short at t={tf} by a failing system: a system ran twice or off its window',
+                                    observed=log[mark:], windows=[w_ for w_ in registered])
+            check(log[mark:] == tlog[tmark0:] and model.systems.timestep == twin.systems.timestep,
+                  f'execute({n}) cut short by a failing system is not equivalent to single steps cut short the same way',
+                  multi=log[mark:], singles=tlog[tmark0:], clocks=(model.systems.timestep, twin.systems.timestep))
+            check_clocks(model, model.systems.timestep, 'after a failed advance request')
+            t = model.systems.timestep
+            continue
         # advance
         x = rng.random()
         n = 1
